@@ -97,9 +97,17 @@ class SourceIndex:
             imports = {}
             funcs = {}
             for node in tree.body:
-                if isinstance(node, ast.ImportFrom) and node.module:
+                if isinstance(node, ast.ImportFrom) and (node.module or node.level):
+                    base = node.module or ""
+                    if node.level:
+                        # relative import: resolve against this module's package
+                        pkg = modname.split(".")
+                        if not path.endswith("__init__.py"):
+                            pkg = pkg[:-1]
+                        pkg = pkg[: len(pkg) - (node.level - 1)]
+                        base = ".".join(pkg + ([node.module] if node.module else []))
                     for a in node.names:
-                        imports[a.asname or a.name] = node.module + "." + a.name
+                        imports[a.asname or a.name] = base + "." + a.name
                 elif isinstance(node, ast.Import):
                     for a in node.names:
                         imports[a.asname or a.name.split(".")[0]] = a.name
@@ -332,7 +340,7 @@ class FunctionVerifier:
         return SArrVal(o.dtype, self.arr_shape(st, a), {c: nested_select(t, a.prefix) for c, t in o.comps.items()})
 
     def elem_from_terms(self, st, dtype, terms, add_range=True):
-        if is_float_dtype(dtype):
+        if is_float_dtype(dtype) or dtype == "fdict":
             return SFloat(terms["v"], terms["ninf"], terms["nan"])
         if is_bool_dtype(dtype):
             return SBool(terms["v"])
@@ -345,6 +353,13 @@ class FunctionVerifier:
     def load(self, st, a, idxs, node=None, prog=True):
         o = st.heap[a.loc]
         full = a.prefix + tuple(idxs)
+        if o.dtype == "fdict":
+            if len(idxs) != 1:
+                raise VerifError("dict subscript")
+            if prog:
+                self.oblige("key-present", self.stmt_anchor(node) if node is not None else "load", z3.Select(o.comps["has"], idxs[0]), st, node)
+            terms = {c: z3.simplify(z3.Select(t, idxs[0])) for c, t in o.comps.items()}
+            return SFloat(terms["v"], terms["ninf"], terms["nan"])
         if prog:
             for k, ix in enumerate(idxs):
                 dim = o.shape[len(a.prefix) + k]
@@ -378,6 +393,13 @@ class FunctionVerifier:
     def store(self, st, a, idxs, val, node=None, prog=True):
         o = st.heap[a.loc]
         full = a.prefix + tuple(idxs)
+        if o.dtype == "fdict":
+            if len(idxs) != 1:
+                raise VerifError("dict subscript")
+            f = self.to_float(val)
+            new = {"v": f.v, "ninf": f.ninf, "nan": f.nan, "has": TRUE}
+            st.heap[a.loc] = o.with_comps({c: z3.Store(t, idxs[0], new[c]) for c, t in o.comps.items()})
+            return
         if prog:
             for k, ix in enumerate(idxs):
                 dim = o.shape[len(a.prefix) + k]
@@ -600,7 +622,13 @@ class FunctionVerifier:
                 a = self.as_int(a)
                 r = z3.And(a.e >= b.lo, a.e < b.hi)
                 return SBool(r if isinstance(op, ast.In) else z3.Not(r))
-            raise VerifError("`in` only supported on ranges")
+            if isinstance(b, SArr) and st.heap[b.loc].dtype == "fdict":
+                r = z3.Select(st.heap[b.loc].comps["has"], self.as_int(a).e)
+                return SBool(r if isinstance(op, ast.In) else z3.Not(r))
+            if isinstance(b, SArrVal) and b.dtype == "fdict":
+                r = z3.Select(b.comps["has"], self.as_int(a).e)
+                return SBool(r if isinstance(op, ast.In) else z3.Not(r))
+            raise VerifError("`in` only supported on ranges and dicts")
         if isinstance(a, SNone) or isinstance(b, SNone):
             r = isinstance(a, SNone) and isinstance(b, SNone)
             if isinstance(op, ast.Eq):
@@ -758,6 +786,15 @@ class FunctionVerifier:
             left = right
         return SBool(parts[0] if len(parts) == 1 else z3.And(*parts))
 
+    def ev_Dict(self, node, st, prog):
+        if node.keys:
+            raise VerifError("only the empty dict literal is modelled")
+        from . import externals as X
+
+        X.USED.add("numba typed dict int64 -> float64: key in d, d[key], d[key] = value")
+        comps = {"v": z3.K(I, z3.RealVal(0)), "ninf": z3.K(I, FALSE), "nan": z3.K(I, FALSE), "has": z3.K(I, FALSE)}
+        return self.new_loc(st, "fdict", [z3.IntVal(0)], comps, name="dict")
+
     def ev_IfExp(self, node, st, prog):
         c = self.to_bool(self.ev(node.test, st, prog))
         saved = list(st.guards)
@@ -829,6 +866,9 @@ class FunctionVerifier:
             raise VerifError("tuple subscript")
         if isinstance(base, SArrVal):
             idxs = [self.as_int(self.ev(e, st, prog)).e for e in elts]
+            if base.dtype == "fdict":
+                terms = {c: z3.Select(t, idxs[0]) for c, t in base.comps.items()}
+                return SFloat(terms["v"], terms["ninf"], terms["nan"])
             if len(idxs) < len(base.shape):
                 return SArrVal(base.dtype, base.shape[len(idxs):], {c: nested_select(t, idxs) for c, t in base.comps.items()})
             terms = {c: nested_select(t, idxs) for c, t in base.comps.items()}
@@ -843,10 +883,11 @@ class FunctionVerifier:
                 elts = [ast.copy_location(ast.Name(id="__idx0__", ctx=ast.Load()), elts[0])]
                 st.env["__idx0__"] = iv
             idxs = []
+            is_dict = st.heap[base.loc].dtype == "fdict"
             for k, e in enumerate(elts):
                 ix = self.as_int(self.ev(e, st, prog)).e
                 sx = z3.simplify(ix)
-                if z3.is_int_value(sx) and sx.as_long() < 0:
+                if z3.is_int_value(sx) and sx.as_long() < 0 and not is_dict:
                     ix = self.arr_shape(st, base)[k] + sx.as_long()
                 idxs.append(ix)
             return self.load(st, base, idxs, node, prog)
@@ -1047,10 +1088,11 @@ class FunctionVerifier:
                 self.store_slice(st, base, lo, hi, val, node, prog)
                 return
             idxs = []
+            is_dict = st.heap[base.loc].dtype == "fdict"
             for k, e in enumerate(elts):
                 ix = self.as_int(self.ev(e, st, prog)).e
                 sx = z3.simplify(ix)
-                if z3.is_int_value(sx) and sx.as_long() < 0:
+                if z3.is_int_value(sx) and sx.as_long() < 0 and not is_dict:
                     ix = self.arr_shape(st, base)[k] + sx.as_long()
                 idxs.append(ix)
             self.store(st, base, idxs, val, node, prog)
@@ -1556,6 +1598,27 @@ class FunctionVerifier:
         if not self.ghost_mode or len(node.items) != 1:
             raise VerifError("with statement")
         ce = node.items[0].context_expr
+        if isinstance(ce, ast.Call) and isinstance(ce.func, ast.Name) and ce.func.id == "forall_intro_arr1" and len(ce.args) == 2 and isinstance(ce.args[0], ast.Name):
+            # with forall_intro_arr1(g, body): <proof>   -- g ranges over all 1-D integer arrays
+            name = ce.args[0].id
+            gc = self.fresh(name, arr_sort(I, 1))
+            gv = SArrVal("i8", [z3.IntVal(0)], {"v": gc})
+            s2 = st.fork()
+            s2.env[name] = gv
+            for s3 in self.run_ghost(node.body, s2):
+                g = self.to_bool(self.ev(ce.args[1], s3, False))
+                self.oblige("ghost-assert", "forall_intro_arr1 " + ast.unparse(ce.args[1])[:40], g, s3, node)
+            sq = st.fork()
+            sq.assumes = st.assumes
+            sq.env[name] = gv
+            body = self.to_bool(self.ev(ce.args[1], sq, False))
+            pats = []
+            for kwd in ce.keywords:
+                if kwd.arg == "pattern":
+                    v = self.ev(kwd.value, sq, False)
+                    pats.append(v.e if isinstance(v, (SInt, SBool)) else v.v)
+            st.assume(z3.ForAll([gc], body, patterns=pats) if pats else z3.ForAll([gc], body))
+            return [(st, FALL)]
         if not (isinstance(ce, ast.Call) and isinstance(ce.func, ast.Name) and ce.func.id == "forall_intro" and len(ce.args) == 4 and isinstance(ce.args[0], ast.Name)):
             raise VerifError("unsupported with-block in ghost code: %s" % ast.unparse(ce)[:60])
         name = ce.args[0].id
